@@ -202,3 +202,15 @@ OwnersFacts.vos OwnersFacts.vok OwnersFacts.required_vos: OwnersFacts.v Owners.v
 OwnersScenarios.vo OwnersScenarios.glob OwnersScenarios.v.beautified OwnersScenarios.required_vo: OwnersScenarios.v Owners.vo OwnersFacts.vo
 OwnersScenarios.vio: OwnersScenarios.v Owners.vio OwnersFacts.vio
 OwnersScenarios.vos OwnersScenarios.vok OwnersScenarios.required_vos: OwnersScenarios.v Owners.vos OwnersFacts.vos
+OwnersRevert.vo OwnersRevert.glob OwnersRevert.v.beautified OwnersRevert.required_vo: OwnersRevert.v Owners.vo
+OwnersRevert.vio: OwnersRevert.v Owners.vio
+OwnersRevert.vos OwnersRevert.vok OwnersRevert.required_vos: OwnersRevert.v Owners.vos
+OwnersRevertFacts.vo OwnersRevertFacts.glob OwnersRevertFacts.v.beautified OwnersRevertFacts.required_vo: OwnersRevertFacts.v Owners.vo OwnersFacts.vo OwnersRevert.vo
+OwnersRevertFacts.vio: OwnersRevertFacts.v Owners.vio OwnersFacts.vio OwnersRevert.vio
+OwnersRevertFacts.vos OwnersRevertFacts.vok OwnersRevertFacts.required_vos: OwnersRevertFacts.v Owners.vos OwnersFacts.vos OwnersRevert.vos
+OwnersRevertProgress.vo OwnersRevertProgress.glob OwnersRevertProgress.v.beautified OwnersRevertProgress.required_vo: OwnersRevertProgress.v Owners.vo OwnersFacts.vo OwnersRevert.vo OwnersRevertFacts.vo
+OwnersRevertProgress.vio: OwnersRevertProgress.v Owners.vio OwnersFacts.vio OwnersRevert.vio OwnersRevertFacts.vio
+OwnersRevertProgress.vos OwnersRevertProgress.vok OwnersRevertProgress.required_vos: OwnersRevertProgress.v Owners.vos OwnersFacts.vos OwnersRevert.vos OwnersRevertFacts.vos
+OwnersRevertScenarios.vo OwnersRevertScenarios.glob OwnersRevertScenarios.v.beautified OwnersRevertScenarios.required_vo: OwnersRevertScenarios.v Owners.vo OwnersFacts.vo OwnersScenarios.vo OwnersRevert.vo OwnersRevertFacts.vo
+OwnersRevertScenarios.vio: OwnersRevertScenarios.v Owners.vio OwnersFacts.vio OwnersScenarios.vio OwnersRevert.vio OwnersRevertFacts.vio
+OwnersRevertScenarios.vos OwnersRevertScenarios.vok OwnersRevertScenarios.required_vos: OwnersRevertScenarios.v Owners.vos OwnersFacts.vos OwnersScenarios.vos OwnersRevert.vos OwnersRevertFacts.vos
